@@ -14,6 +14,17 @@ def annotate(occ, base=0):
 
 
 def worker(st, ctx):
+    from ..common import library_raised
+    try:
+        return _worker(st, ctx)
+    except Exception as e:  # noqa: BLE001
+        if not library_raised(e):
+            raise
+        return {"findings": [("raised", "%s: %s" % (type(e).__name__, e))],
+                "case": (list(st["a"]), list(st["b"]), list(st["c"]), sorted(st["h"]), st["lo"], st["hi"])}
+
+
+def _worker(st, ctx):
     a, b, c = list(st["a"]), list(st["b"]), list(st["c"])
     res = st["res"]
     out = {"findings": [], "case": (a, b, c, sorted(st["h"]), st["lo"], st["hi"])}
